@@ -177,7 +177,7 @@ def entry_lit(entry):
     if kind == 'join':
         return '(EJoin %s)' % C.coq_str(entry[1])
     if kind == 'filter':
-        return '(EFilter %s %s)' % ({'size': 'KSize', 'prefix': 'KPrefix', 'position': 'KPosition'}[entry[1]],
+        return '(EFilter %s %s)' % ({'size': 'KSize', 'prefix': 'KPrefix', 'position': 'KPosition', 'suffix': 'KSuffix'}[entry[1]],
                                     C.coq_str(entry[2]))
     if kind == 'overlap_filter':
         return 'EOverlapFilter'
